@@ -84,6 +84,10 @@ func genC07History(r *Rng, cfg *Config) []Op {
 	var ops []Op
 	n := r.Range(2, 6)
 	for i := 0; i < n; i++ {
+		if r.Chance(0.5) {
+			// the clock moves between requests (a refresh then carries a new timestamp, so a write that was dropped shows)
+			ops = append(ops, Op{K: "jump", Ms: int64(Pick(r, 1500, 2000, 61000, 3600000))})
+		}
 		l := r.IntN(len(cfg.Logs))
 		nb := len(cfg.Logs[l].Forks) + 1
 		switch r.Weighted(35, 12, 22, 8, 8, 8, 5, 2) {
